@@ -1777,7 +1777,7 @@ Qed.
 (* leaf values: [reg_prefix t ++ [tk]] *)
 Ltac leaf_case Hs Hp Hf step :=
   eapply (rt_nonptr pf o R); [reflexivity|reflexivity|exact Hp|exact Hs| |exact Hf|];
-  [cbn [vsize]; lia|]; intros f1 _; cbn [app]; step.
+  [clear; cbn [vsize]; lia|]; intros f1 _; cbn [app]; step.
 
 Theorem roundtrip_all : forall v, rt_ok v.
 Proof.
